@@ -24,13 +24,19 @@ check("C01", "DESIGN.md 5/C01",
 
 check("C14", "DESIGN.md 5/C14",
       "TLA+ character-level model Lexer.tla composed with Wilkinson.tla, totality and flag monotonicity model-checked in TLC; "
-      "exhaustive replay of every bounded character string; trace validation of mutation-fuzzed strings (Trace_C14)",
+      "exhaustive replay of every bounded character string; trace validation of mutation-fuzzed strings (Trace_C14); TLA+ state machine "
+      "ParserSession.tla of a parser object with a history (set_feature_flags, include_intercept, cached operator table, pickle/deepcopy), "
+      "every bounded history replayed into real parser objects",
       "TLC assigns an outcome to every character string in the bound (no stuck state of the composed lexer/parser machine) and proves "
       "flag monotonicity; every enumerated string and tens of thousands of fuzzed strings are parsed by the real parser and a verdict is "
       "raised exactly for what the statement forbids (escaped exception, timeout, SyntaxError without an invalid python fragment, "
-      "acceptance of a string that needs a disabled operator).",
+      "acceptance of a string that needs a disabled operator). ParserSession: TLC checks cache coherence and that every parse call returns "
+      "what the public configuration at the time of the call prescribes (so a disabled operator is rejected on every history, also after "
+      "reconfiguration and cloning); two seeded design errors of the model are required to violate the laws (non-vacuity); multistage "
+      "stages are modelled (Wilkinson.tla evaluates on Structured trees).",
       "Trusted: ast.parse as oracle of fragment validity, lexical classes from the documented regexes. Bounded: strings <= 3-4 chars "
-      "(quick) / <= 4-6 (thorough) exhaustively, fuzzed strings up to 120 chars.")
+      "(quick) / <= 4-6 (thorough) exhaustively, fuzzed strings up to 120 chars, parser histories of <= 3 / 4 calls on two objects. "
+      "Known finding D33 (nested multistage left-hand side escapes with NotImplementedError, demanded by the repository's own test) is reported as KNOWN-FINDING.")
 
 check("C15", "DESIGN.md 5/C15",
       "TLA+ tokenizer state machine Lexer.tla with declarative span/verbatim/whitespace laws model-checked in TLC; exhaustive "
@@ -65,10 +71,10 @@ check("C19", "DESIGN.md 5/C19",
       "model-checked in TLC; every enumerated tree / history replayed into the real objects",
       "TLC checks the container laws on every tree of a bounded shape family (map visits leaves once in flatten order and preserves shape, "
       "simplify idempotent and leaf-preserving, update/merge as dictionary merges) and on every operation history up to the bound "
-      "(top-first merge with writes confined to the private layer as an action property, ordering invariant and multiset law of the "
-      "formula sequence); each case is replayed into real Structured / LayeredMapping / SimpleFormula objects and alpha(object) compared.",
+      "(top-first merge with writes confined to the private layer as an action property, ordering invariant, multiset law and list law of the "
+      "formula sequence under each ordering mode none / degree / sort); each case is replayed into real Structured / LayeredMapping / SimpleFormula objects and alpha(object) compared.",
       "Trusted: gamma/alpha between abstract values and the objects (alpha(gamma(t)) = t is itself checked). Bounded: shape family of "
-      "depth 3, histories of <= 3-4 operations over 3 keys / 6 terms.")
+      "depth 3, histories of <= 2-4 operations over 3 keys / 7 terms x 3 ordering modes x 4 starting formulas.")
 
 check("C02", "DESIGN.md 5/C02",
       "TLA+ model Materialize.tla (null discovery, level discovery, contrast coding, rank reduction, row-wise Kronecker product in "
@@ -123,11 +129,16 @@ check("C07", "DESIGN.md 5/C07",
 
 check("C05", "DESIGN.md 5/C05",
       "one TLA+ definition of the matrix (Materialize.tla, evaluated by TLC on every enumerated case) of which entry point, output type and "
-      "materializer are not parameters; replay of every case on entry points x outputs x materializers/data forms",
+      "materializer are not parameters; replay of every case on entry points x outputs x materializers/data forms; contrast codings of "
+      "Contrasts.tla on all combinations; TLA+ state machine Registry.tla of the materializer registry / dispatch replayed into the real metaclass",
       "the specification defines the result as a function of formula, data and options only; each enumerated case is executed through "
       "sugar / Formula / ModelSpec / materializer class, for pandas / numpy / sparse output, with the pandas materializer, narwhals on the "
       "pandas frame and narwhals on a pyarrow table (6 rotating combinations per case in the quick tier, all 36 in the thorough tier) and "
-      "every result must equal the specification's matrix, hence all agree.",
+      "every result must equal the specification's matrix, hence all agree. Every contrast coding enumerated by MC_Contrasts (exact "
+      "rationals) is built as C(g, contr...) + x with and without an intercept on all 36 combinations. Registry.tla: every sequence of "
+      "<= 4 / 5 materializer class definitions (names, explicit input types, outputs, precedence, SUPPORTS_INPUT predicates) with the laws "
+      "sorted lists / sound / complete / priority / monotone; each history is replayed by defining real subclasses (registry saved and "
+      "restored) and every for_data / for_materializer query compared; the shipped registry is queried for pandas, recarray and Arrow inputs.",
       "Trusted: gamma including pyarrow.Table.from_pandas, alpha. Index labels are C06's business and are not compared here.")
 
 check("C08", "DESIGN.md 5/C08",
